@@ -10,6 +10,7 @@
 #include "StringLiterals.h"
 
 #include <QDomElement>
+#include <QLocale>
 #include <QXmlStreamWriter>
 
 using namespace QXmpp::Private;
@@ -184,7 +185,8 @@ void QXmppGeolocItem::parsePayload(const QDomElement &tune)
 auto writeTextEl(QXmlStreamWriter *writer, const QString &name, std::optional<double> val)
 {
     if (val.has_value()) {
-        writer->writeTextElement(name, QString::number(*val));
+        // shortest decimal representation that reads back as the same double (the default is 6 significant digits)
+        writer->writeTextElement(name, QString::number(*val, 'g', QLocale::FloatingPointShortest));
     }
 }
 auto writeTextEl(QXmlStreamWriter *writer, const QString &name, const QString &val)
